@@ -201,6 +201,26 @@ pub fn run(r: &mut Report) {
         if let Err(p) = no_panic(|| { let _ = in_toto_verify(&lay, owner_keys(&[&owner]), d.path().to_str().unwrap(), None); }) { panics.push(format!("sub-layout without directory: {}", p)); }
     }
     r.case("fuzz-link-directory", json!({"inputs": n}), "no panic", format!("{:?}", panics), panics.is_empty());
+    // recorded commands shorter than, equal to, longer than and different from the expected command (the comparison only warns)
+    {
+        let mut n2 = 0; let mut panics2: Vec<String> = vec![];
+        let exp_cmds: Vec<Vec<&str>> = vec![vec![], vec!["tar"], vec!["tar", "zcvf", "out.tgz", "src"]];
+        let rec_cmds: Vec<Vec<&str>> = vec![vec![], vec!["tar"], vec!["tar", "zcvf"], vec!["tar", "zcvf", "out.tgz"], vec!["tar", "zcvf", "out.tgz", "src"], vec!["tar", "zcvf", "out.tgz", "src", "extra"], vec!["gzip"], vec!["tar", "xf", "out.tgz", "src"]];
+        for e in &exp_cmds { for c in &rec_cmds {
+            n2 += 1;
+            let d = tmpdir();
+            let st = in_toto::models::step::Step::new("a").threshold(1).add_key(ka.key_id().clone()).expected_command(cmd(e));
+            let l = in_toto::models::LayoutMetadataBuilder::new().expires(chrono::Utc::now() + chrono::Duration::days(3)).add_step(st).add_key(ka.public().clone()).build().unwrap();
+            let lm = in_toto::models::LinkMetadataBuilder::new().name("a".into()).command(cmd(c)).build().unwrap();
+            write_link(d.path(), "a", ka.key_id(), &signed_link(&lm, &[&ka]));
+            let layn = signed_layout(&l, &[&owner]);
+            match no_panic(|| in_toto_verify(&layn, owner_keys(&[&owner]), d.path().to_str().unwrap(), None).is_ok()) {
+                Ok(true) => {}, Ok(false) => { if panics2.len() < 5 { panics2.push(format!("expected {:?} recorded {:?}: verification failed (the command check only warns)", e, c)); } }
+                Err(p) => { if panics2.len() < 5 { panics2.push(format!("expected {:?} recorded {:?}: {}", e, c, p)); } }
+            }
+        } }
+        r.case("expected-vs-recorded-command-lengths", json!({"inputs": n2}), "Ok from every call (a command mismatch is a warning, never a panic or a failure)", format!("{:?}", panics2), panics2.is_empty());
+    }
     // delegations that name themselves (the sub-layout's only step is the delegated step again, same functionary), with and without
     // the dedicated sub-directory: verification must come back with a verdict.  Run in a child process, because the failure mode is
     // unbounded recursion (a stack overflow aborts the process and cannot be caught)
